@@ -26,7 +26,8 @@ from spyne.protocol.yaml import YamlDocument
 from spyne.server.wsgi import WsgiApplication
 
 from .pipeline import TNS
-from .c01_xml_fidelity import (PRIMS, PRIM_VALUES, outer_values, ARRAY_VALUES, Outer, Inner, Sub, Sub2, _services)
+from .c01_xml_fidelity import (PRIMS, PRIM_VALUES, outer_values, ARRAY_VALUES, Outer, Inner, Sub, Sub2, _services,
+                               _shared)
 
 
 @obligation('C02.msgpack.integer_split', targets=['spyne.protocol.msgpack:MessagePackDocument.integer_to_bytes',
@@ -123,13 +124,15 @@ def _mk_roundtrip(family, wrappers, as_list, validator):
         wsgi = WsgiApplication(app)
         cfg = dict(wrappers=wrappers, as_list=as_list, family=family)
         packb, unpackb, ctype = _codec(family)
-        meth = c.choose(['prims', 'struct', 'arrays'], 'method')
+        meth = c.choose(['prims', 'struct', 'arrays', 'shared'], 'method')
         d = app.interface.service_method_map['{%s}%s' % (TNS, meth)][0]
-        if meth == 'prims':
+        if meth == 'shared':
+            args = []
+        elif meth == 'prims':
             vals = PRIM_VALUES[c.choose(list(range(len(PRIM_VALUES))), 'values')]
             args = [vals[k] for k, _ in PRIMS]
         elif meth == 'struct':
-            args = [_full(None)] if as_list else [outer_values()[c.choose([0, 1, 2, 3], 'values')]]
+            args = [_full(None)] if as_list else [outer_values()[c.choose([0, 1, 2, 3, 4], 'values')]]
         else:
             av = ARRAY_VALUES[c.choose(list(range(len(ARRAY_VALUES))), 'values')]
             if as_list:
@@ -179,7 +182,11 @@ def _mk_roundtrip(family, wrappers, as_list, validator):
         out_ti = list(d.out_message._type_info.items())
         if wrappers and isinstance(rdoc, dict) and len(rdoc) == 1:
             (_, rdoc), = rdoc.items()
-        for i, ((k, t), ret) in enumerate(zip(out_ti, args)):
+        rets = args
+        if meth == 'shared':
+            o = _shared()
+            rets = [o, [o.inner] * 3]
+        for i, ((k, t), ret) in enumerate(zip(out_ti, rets)):
             if len(out_ti) == 1 and not wrappers:
                 piece = rdoc
             elif isinstance(rdoc, dict):
